@@ -125,6 +125,38 @@ func showInts(xs []int) string {
 	return strings.Join(ss, ",")
 }
 
+// Services of other dynamic types than a pointer: a function-typed adapter and a struct with a slice
+// in it are not comparable (a map keyed by the service, or ==, panics on them), a small struct value
+// is comparable but two registrations of equal values are still two services.
+
+type c18FuncSvc func(ctx context.Context, shutdown bool) error
+
+func (f c18FuncSvc) Start(ctx context.Context) error    { return f(ctx, false) }
+func (f c18FuncSvc) Shutdown(ctx context.Context) error { return f(ctx, true) }
+
+type c18SliceSvc struct {
+	inner service.Interface
+	tags  []string
+}
+
+func (s c18SliceSvc) Start(ctx context.Context) error    { return s.inner.Start(ctx) }
+func (s c18SliceSvc) Shutdown(ctx context.Context) error { return s.inner.Shutdown(ctx) }
+
+func c18SvcShape(i int, s *fakeservice.Service) service.Interface {
+	switch i % 4 {
+	case 1:
+		return c18FuncSvc(func(ctx context.Context, shutdown bool) error {
+			if shutdown {
+				return s.Shutdown(ctx)
+			}
+			return s.Start(ctx)
+		})
+	case 3:
+		return c18SliceSvc{inner: s, tags: []string{"t"}}
+	}
+	return s
+}
+
 // c18SHTimeout: scripts with a service that waits for the shutdown deadline (w, W) get a
 // short ShutdownTimeout, all others a long one that never expires.
 func c18SHTimeout(outs string) time.Duration {
@@ -153,7 +185,7 @@ func evalC18SH(sigs []c18Sig, outs string) Result {
 	var svcs []service.Interface
 	for i := range outs {
 		o := outs[i]
-		svcs = append(svcs, &fakeservice.Service{
+		svcs = append(svcs, c18SvcShape(i, &fakeservice.Service{
 			OnStart: func(_ context.Context) error { return nil },
 			OnShutdown: func(ctx context.Context) error {
 				if cleanup.Load() {
@@ -185,7 +217,7 @@ func evalC18SH(sigs []c18Sig, outs string) Result {
 				}
 				return nil
 			},
-		})
+		}))
 	}
 	// register in batches of 1, 2, 3, 1, 2, 3, … services per Add call: registration
 	// order is the argument order within a call and the call order between calls
